@@ -634,6 +634,48 @@ func nonRepositoryTrial(r *vh.Run, i int) {
 	}
 }
 
+// nestedLayoutTrial: a complete OCI layout sits *inside* the blob store of repository a (root/a/blobs/sha256/x).  The name
+// a/blobs/sha256/x is grammatical, but what lies there belongs to a: neither store may serve it as a repository of its
+// own, and nothing of it may be mounted into another repository.
+func nestedLayoutTrial(r *vh.Run, i int) {
+	kind := []vh.StoreKind{vh.MemDir, vh.Dir}[i%2]
+	ro := (i/2)%2 == 1
+	outer := r.TempDir("c16l")
+	defer vh.RemoveAll(outer)
+	root := filepath.Join(outer, "root")
+	content := []byte(fmt.Sprintf("content inside the blob store of a %d", i))
+	d := vh.DigestOf("sha256", content)
+	inner := []string{"x", "x/y", "index.json/x"}[(i/4)%3]
+	for _, dir := range []string{filepath.Join(root, "a"), filepath.Join(root, "a", "blobs", "sha256", filepath.FromSlash(inner))} {
+		_ = os.MkdirAll(filepath.Join(dir, "blobs", "sha256"), 0o755)
+		_ = os.WriteFile(filepath.Join(dir, "oci-layout"), []byte(`{"imageLayoutVersion":"1.0.0"}`), 0o644)
+		_ = os.WriteFile(filepath.Join(dir, "index.json"), []byte(`{"schemaVersion":2,"mediaType":"application/vnd.oci.image.index.v1+json","manifests":[]}`), 0o644)
+	}
+	_ = os.WriteFile(filepath.Join(root, "a", "blobs", "sha256", filepath.FromSlash(inner), "blobs", "sha256", d[7:]), content, 0o644)
+	c := vh.Conf(kind, root, vh.Neutral)
+	if ro {
+		c.Storage.ReadOnly = vh.BP(true)
+	}
+	srv := vh.New(c)
+	defer srv.Close()
+	name := "a/blobs/sha256/" + inner
+	wit := map[string]any{"trial": i, "store": kind.String(), "read_only": ro, "name": name}
+	r.Count("nested_layout_trials", 1)
+	g := vh.Do(srv, vh.Req{Method: "GET", URL: "/v2/" + name + "/blobs/" + d})
+	h := vh.Do(srv, vh.Req{Method: "HEAD", URL: "/v2/" + name + "/blobs/" + d})
+	if g.Status == 200 || h.Status == 200 {
+		r.Violation("isolation:layout-inside-a-blob-store-served", fmt.Sprintf("%s store: GET /v2/%s/blobs/<d> answers %d (HEAD %d): files below the blobs directory of repository a are served as a repository of their own", kind, name, g.Status, h.Status), wit)
+		return
+	}
+	if !ro {
+		m := vh.Do(srv, vh.Req{Method: "POST", URL: "/v2/real/blobs/uploads/?mount=" + d + "&from=" + url.QueryEscape(name)})
+		g2 := vh.Do(srv, vh.Req{Method: "GET", URL: "/v2/real/blobs/" + d})
+		if m.Status == 201 || g2.Status == 200 {
+			r.Violation("isolation:mount-from-inside-a-blob-store", fmt.Sprintf("%s store: POST ?mount=<d>&from=%s answers %d and GET /v2/real/blobs/<d> answers %d: a file below the blobs directory of repository a became content of another repository", kind, name, m.Status, g2.Status), wit)
+		}
+	}
+}
+
 // missingRootTrial: the configured root does not exist yet (and neither does its parent).  Requests may create what they
 // need at or below the root - never the directories above it: those are outside the root.
 func missingRootTrial(r *vh.Run, i int) {
@@ -665,6 +707,9 @@ func main() {
 	nn := r.N(32, 320)
 	vh.Parallel(nn, 8, func(i int) { nonRepositoryTrial(r, i) })
 	vh.Parallel(r.N(4, 40), 4, func(i int) { missingRootTrial(r, i) })
+	nl := r.N(24, 240)
+	vh.Parallel(nl, 8, func(i int) { nestedLayoutTrial(r, i) })
+	r.Require("nested_layout_trials", int64(nl))
 	r.Require("non_repository_trials", int64(nn))
 	r.Require("batches", int64(n))
 	r.Require("cross_probes", 10000)
